@@ -373,6 +373,10 @@ class Definition(Item):
                 raise ItemException(
                     "Definition %s: extra variables in rhs: %s" % (
                         self.name, ", ".join(v for v in rhs_vars - lhs_vars)))
+            if self.prop.rhs.get_svars():
+                raise ItemException(
+                    "Definition %s: schematic variables in rhs: %s" % (
+                        self.name, ", ".join(str(v) for v in self.prop.rhs.get_svars())))
 
             # The definition must be conservative: the constant being defined
             # does not occur on the rhs (at a type overlapping its own), and
@@ -490,6 +494,10 @@ class Fun(Item):
                     raise ItemException(
                         "Fun %s: extra variables in rhs: %s" % (
                             self.name, ", ".join(v for v in rhs_vars - lhs_vars)))
+                if prop.get_svars():
+                    raise ItemException(
+                        "Fun %s: schematic variables in rule: %s" % (
+                            self.name, ", ".join(str(v) for v in prop.get_svars())))
 
                 self.rules.append({'prop': prop})
             
